@@ -635,6 +635,28 @@ class Model:
         """
         del self._ids[name]
 
+    def _check_new_ids(self, names: Iterable[str], *, ctx: str) -> None:
+        """Raise what `_insert_id` would raise for the first unusable name, inserting nothing."""
+        for name in names:
+            if name == "time":
+                msg = "time is a protected variable for time"
+                raise KeyError(msg)
+            if name in self._ids:
+                msg = f"Model already contains {ctx} called '{name}'"
+                raise NameError(msg)
+
+    @staticmethod
+    def _check_known_names(
+        names: Iterable[str], container: Mapping[str, object], *, ctx: str, unique: bool
+    ) -> None:
+        """Raise KeyError for the first name missing in container (or, if unique, repeated)."""
+        seen: set[str] = set()
+        for name in names:
+            if name not in container or (unique and name in seen):
+                msg = f"{name!r} not found in {ctx}"
+                raise KeyError(msg)
+            seen.add(name)
+
     ##########################################################################
     # Parameters - views
     ##########################################################################
@@ -746,6 +768,8 @@ class Model:
             Self: The instance of the model with the added parameters.
 
         """
+        # all or nothing: refuse before the first parameter is added
+        self._check_new_ids(parameters, ctx="parameter")
         for k, v in parameters.items():
             if isinstance(v, Parameter):
                 self.add_parameter(k, v.value, unit=v.unit, source=v.source)
@@ -791,6 +815,9 @@ class Model:
             Self: The instance of the model with the specified parameters removed.
 
         """
+        # all or nothing: refuse before the first parameter is removed
+        names = list(names)
+        self._check_known_names(names, self._parameters, ctx="parameters", unique=True)
         for name in names:
             self.remove_parameter(name)
         return self
@@ -854,6 +881,10 @@ class Model:
             Self: The instance of the model with updated parameters.
 
         """
+        # all or nothing: refuse before the first parameter is updated
+        self._check_known_names(
+            parameters, self._parameters, ctx="parameters", unique=False
+        )
         for k, v in parameters.items():
             if isinstance(v, Parameter):
                 self.update_parameter(k, value=v.value, unit=v.unit, source=v.source)
@@ -901,8 +932,21 @@ class Model:
             Self: The instance of the model with scaled parameters.
 
         """
-        for k, v in parameters.items():
-            self.scale_parameter(k, v)
+        # all or nothing: refuse unknown names before the first parameter is scaled;
+        # scaling an initial assignment needs the cache, which may fail to build
+        # half way through: put the old values back in that case
+        self._check_known_names(
+            parameters, self._parameters, ctx="parameters", unique=False
+        )
+        previous = {k: self._parameters[k].value for k in parameters}
+        try:
+            for k, v in parameters.items():
+                self.scale_parameter(k, v)
+        except Exception:
+            for k, value in previous.items():
+                self._parameters[k].value = value
+            self._cache = None
+            raise
         return self
 
     @_invalidate_cache
@@ -1102,6 +1146,8 @@ class Model:
             Self: The instance of the model with the added variables.
 
         """
+        # all or nothing: refuse before the first variable is added
+        self._check_new_ids(variables, ctx="variable")
         for name, v in variables.items():
             if isinstance(v, Variable):
                 self.add_variable(
@@ -1169,6 +1215,9 @@ class Model:
             Self: The instance of the model with the specified variables removed.
 
         """
+        # all or nothing: refuse before the first variable is removed
+        variables = list(variables)
+        self._check_known_names(variables, self._variables, ctx="variables", unique=True)
         for variable in variables:
             self.remove_variable(
                 name=variable, remove_stoichiometries=remove_stoichiometries
@@ -1227,6 +1276,8 @@ class Model:
             Self: The instance of the model with updated variables.
 
         """
+        # all or nothing: refuse before the first variable is updated
+        self._check_known_names(variables, self._variables, ctx="variables", unique=False)
         for k, v in variables.items():
             if isinstance(v, Variable):
                 self.update_variable(
